@@ -157,6 +157,22 @@ pub fn run(ctx: &Ctx, rep: &mut Report) {
             }
         }
     }
+    if ctx.thorough() {
+        for k in 1..=7usize {
+            for r in 1..=7usize {
+                if k <= kmax && r <= kmax {
+                    continue;
+                }
+                for &eng in &engines_fast() {
+                    for codec in ["high", "low", "def"] {
+                        specs.push(GroupSpec { eng, codec, k, r, data: "basis".into(), soil });
+                        specs.push(GroupSpec { eng, codec, k, r, data: "dense:66".into(), soil: 0 });
+                    }
+                }
+            }
+        }
+        rep.bound("exhaustive_subsets_cfg_7", J::s("k or r = 7 (n <= 14): every subset, {high,low,def} x {nosimd,avx2}, basis-in-slots soiled + dense 66 bytes fresh"));
+    }
     rep.bound("exhaustive_subsets_cfg", J::s(format!("[1..{kmax}]^2 x codecs {{high,low,def}} (+rs,oneshot on default engine) x engines {engines:?}")));
     if ctx.thorough() {
         for &(k, r) in &[(8usize, 9usize), (9, 8), (12, 4), (4, 12), (11, 5), (13, 3), (3, 13)] {
